@@ -128,6 +128,17 @@ func zzStubWriteString(b *bytes.Buffer, s string) (int, error) {
 
 func zzStubBytes(b *bytes.Buffer) []byte { return nil }
 
+// zzStubLen: number of bytes handed to the buffer so far.
+func zzStubLen(b *bytes.Buffer) int {
+	n := 0
+	for j := 0; j < zzMaxL; j++ {
+		if zzWritten[j] {
+			n += len(zzLineText(j))
+		}
+	}
+	return n
+}
+
 func zzStubTrim(s, cutset string) string {
 	if s == "  \n" {
 		return "\n"
